@@ -8,7 +8,7 @@
 (* Nothing below is used as an oracle by the drivers: judging observed      *)
 (* behaviour is the trace specifications' job.                              *)
 (***************************************************************************)
-EXTENDS FromStr, Display, Json, IOUtils, TLC
+EXTENDS Meta, Display, Json, IOUtils, TLC
 
 Defs == ndJsonDeserialize(IOEnv.DEFS)
 
@@ -18,6 +18,7 @@ Facts(E) ==
    wf    |-> FromStrWF(E),
    no    |-> NonOverlap(E),
    wfn   |-> wfn,
+   iswfn |-> IsNamesWF(E),
    iswf  |-> IntoStrWF(E),
    bf    |-> BraceFree(E),
    dwf   |-> IF wfn THEN DisplayWF(E) ELSE FALSE,
